@@ -63,6 +63,18 @@ mod verif_c01_wit {
         check_walk(&si, &r.routes[0], VertexId(0), VertexId(3));
     }
 
+    /// edge-oriented query whose connecting path runs through the TAIL vertex of the origin edge (the trip starts with a trip around the block):
+    ///   e0: 0->1 (origin edge)   e1: 1->0   e2: 0->2   e3: 2->3 (destination edge)       the only route is [e0, e1, e2, e3]
+    #[test]
+    fn c01_wit_edge_oriented_origin_tail_on_the_connecting_path() {
+        let si = W::instance(W::graph(4, &[(0, 1, 1.0), (1, 0, 1.0), (0, 2, 1.0), (2, 3, 1.0)]), Arc::new(NoRestriction {}), TerminationModel::IterationsLimit { limit: 1000 });
+        let q = serde_json::json!({});
+        let r = SearchAlgorithm::Dijkstra.run_edge_oriented(EdgeId(0), Some(EdgeId(3)), &q, &Direction::Forward, &si).unwrap();
+        let ids: Vec<usize> = r.routes[0].iter().map(|e| e.edge_id.0).collect();
+        assert_eq!(ids.last(), Some(&3), "route ends with the destination edge");
+        assert_eq!(ids.first(), Some(&0), "route starts with the origin edge");
+    }
+
     /// adjacent origin / destination edges
     #[test]
     fn c01_wit_edge_oriented_adjacent() {
